@@ -4,14 +4,14 @@ import json, os, sys
 V = os.path.dirname(os.path.dirname(os.path.abspath(__file__)))
 
 CHECKS = {
- "C16": dict(level="model_checking", design="§5 C16", engine="K",
+ "C16": dict(level="model_checking", design="§5 C16", engine="K+M",
    technique="Kani/CBMC bounded model checking of the compiled trie lookups with the code point fully symbolic (SAT verdict over all 1,112,064 scalar values)",
-   text="For c: char = kani::any() (every Unicode scalar value, no sampling) CBMC proves: exactly one of the 30 two-letter general-category functions is true; each of the 8 grouped categories equals the disjunction of its members; at most one script function is true. The claim is exhaustive in the code point; there is no loop bound involved beyond the harness' own counters.",
-   note="Trusted: Kani's MIR->goto translation, CBMC, cadical. No stubs. by_name(), the VM/generated access paths and the validator's name list are not decided by the quick tier (see DESIGN.md §5 C16)."),
- "C10": dict(level="model_checking", design="§5 C10", engine="K",
+   text="For c: char = kani::any() (every Unicode scalar value, no sampling) CBMC proves: exactly one of the 30 two-letter general-category functions is true; each of the 8 grouped categories equals the disjunction of its members; at most one script function is true. The claim is exhaustive in the code point; there is no loop bound involved beyond the harness' own counters. Name resolution: pest::unicode::by_name is executed from MIR (engine M) with the name a symbolic string constrained to the advertised names of each length; every feasible path must return Some of the table entry carrying that identifier.",
+   note="Trusted: Kani's MIR->goto translation, CBMC, cadical. No stubs in the K harnesses. For by_name the three BY_NAME tables are read from the generated source files (rustc's allocations are not in the MIR dump) and that a table entry's trie is the function's trie is by construction of the property_functions! macro. The VM/generated access paths and the validator's name list are not decided (see DESIGN.md §5 C16)."),
+ "C10": dict(level="model_checking", design="§5 C10", engine="K+M",
    technique="Kani/CBMC bounded model checking of Position/Span code over every valid UTF-8 string up to N bytes and every offset (SAT verdict), counterexamples replayed natively by concrete playback",
-   text="For every valid UTF-8 string of at most N bytes (N=4 quick, 6 thorough; validity decided by the real core::str::from_utf8 inside the harness, so multi-byte, CR, LF, CRLF, tabs all included) and every usize offset / offset pair / RangeBounds form, CBMC proves Position::new, line_col, line_of, Span::new, Span::get, merge_spans (and lines_span in the thorough tier) equal short reference definitions and never panic. Unwinding assertions are on, so the loop bounds are checked, not assumed.",
-   note="Trusted: Kani translation, CBMC. Outside the claim: strings longer than N bytes; LineIndex / Pair::line_col / Error line-col and rendered text (planned on engine M). 'Overlap' for lines_span is read as closed interval, see DESIGN.md §5 C10."),
+   text="For every valid UTF-8 string of at most N bytes (N=4 quick, 6 thorough; validity decided by the real core::str::from_utf8 inside the harness, so multi-byte, CR, LF, CRLF, tabs all included) and every usize offset / offset pair / RangeBounds form, CBMC proves Position::new, line_col, line_of, Span::new, Span::get, merge_spans (and lines_span in the thorough tier) equal short reference definitions and never panic. Unwinding assertions are on, so the loop bounds are checked, not assumed. In addition engine M executes LineIndex::new / LineIndex::line_col (what Pair::line_col uses) and Position::line_col from MIR on every valid UTF-8 text of 0..5 (quick) / 7 (thorough) symbolic bytes and every char-boundary offset and compares both with the newline/character count.",
+   note="Trusted: Kani translation, CBMC. Outside the claim: strings longer than the bounds; the line/column fields and the rendered text of Error (format!). 'Overlap' for lines_span is read as closed interval, see DESIGN.md §5 C10."),
  "C11": dict(level="model_checking", design="§5 C11", engine="M",
    technique="symbolic execution of the MIR of pest/src/stack.rs (operation selectors and elements as z3 bit-vectors, z3 deciding every branch and every equality with the naive model), plus a one-step inductive check from every representation state within size bounds; every path replayed on the compiled crate",
    text="(a) All histories of N operations (N=6 quick, 8 thorough) from Stack::new(), selectors symbolic over the six operations and elements symbolic u8: after every operation z3 proves contents, len, peek and popped elements equal to the naive copy-per-snapshot model and that no MIR assert (overflow, bounds) can fail. (b) Inductive step: from every representation state (|cache|,|popped|<=4/5, <=3/4 snapshots) satisfying the stated invariant, one arbitrary operation preserves the invariant and commutes with the model under the abstraction function, which extends (a) to histories of any length whose states stay within those sizes. A step counterexample is reported only if its pre-state is reached by a real history and the failure reproduces through the public API.",
